@@ -489,6 +489,9 @@ pub fn boundary_cases(thorough: bool) -> Vec<Case> {
                 if !thorough && s > MIB && !(a == 8 || a == 4096) {
                     continue;
                 }
+                if !thorough && s > 65536 && !matches!(a, 1 | 8 | 16 | 64 | 4096 | 8192) {
+                    continue;
+                }
                 for (name, ops) in shapes(&seed.ops, s, a) {
                     if !thorough && s > 4 * MIB && matches!(name, "realloc-moving" | "three-then-free-order") {
                         continue;
@@ -552,7 +555,7 @@ pub fn boundary(args: &Args) -> Report {
         seeds().len(),
         seeds().iter().map(|s| s.name).collect::<Vec<_>>(),
         if th { "-24,-16,-9,-8,-7,0,+8" } else { "-16,-8,0" },
-        if th { "" } else { " (sizes above 1 MiB: alignments 8 and 4096 only; sizes above 4 MiB: the first four shapes only)" }
+        if th { "" } else { " (sizes above 64 KiB: alignments 1, 8, 16, 64, 4096, 8192 only; above 1 MiB: 8 and 4096 only; sizes above 4 MiB: the first four shapes only)" }
     );
     r.bound("seeds", seeds().len());
     r.bound("sizes", n_sizes);
@@ -1006,7 +1009,7 @@ pub fn placement(args: &Args) -> Report {
                 let joined = w.k.join_events.get(c.script.len() - 1).copied();
                 r.outcome(&format!("junction:{name}{}", if joined == Some(expect[&name]) { "" } else { ":MAPPING-DID-NOT-JOIN" }));
                 // aged heap: the countdown expires on the first / second tree-binned free after the big request
-                if c.ops.iter().any(|o| matches!(o, Op::Free { .. })) {
+                if c.ops.iter().any(|o| matches!(o, Op::Free { .. })) && (th || c.ops.len() <= 4) {
                     for v in [1u64, 2] {
                         run_with_countdown(&mut w, &c, c.seed.len() + 1, v, (i / jsh) % 800 == 0, false, &mut r);
                     }
